@@ -515,3 +515,48 @@ func ruleAsDistinct(rule string) RuleFn {
 		c.Check(found != "", rule, "dig.As: a repeated interface is detected before it becomes a key of a result node", found, "nothing between the As option and the result node compares an interface with those already listed: Provide(f, Group(\"g\"), As(new(I), new(I))) registers group key (g, I) twice on one node and every consumer of []I receives the member twice (group keys bypass the duplicate-key check)", nil, nil)
 	}
 }
+
+// ruleGroupAlwaysCalls (L-group-calls): a non-soft group asks its providers every time.
+func ruleGroupAlwaysCalls(rule string) RuleFn {
+	return func(c *an.Ctx) {
+		c.Rule(rule, "L-group-calls: in paramGroupedSlice.Build every path that takes the !Soft edge and returns an undecorated result without error passes through callGroupProviders: whether a group's constructors run is never short-cut by a 'this group was built before' memo - the constructors' own done-flags are the only cache, so a constructor added to any enclosing scope between two requests is run by the second one")
+		fn := c.Fn(rule, "(dig.paramGroupedSlice).Build")
+		if fn == nil {
+			return
+		}
+		calls := an.CallsNamed(fn, "(dig.paramGroupedSlice).callGroupProviders")
+		notSoft := an.BoolEdges(fn, func(v ssa.Value) bool { return an.Norm(v) == "p:pt.Soft" }, false)
+		if !c.Floor(rule, "callGroupProviders calls / !Soft edges in Build", len(calls)+len(notSoft), 2) {
+			return
+		}
+		var gates []ssa.Instruction
+		for _, k := range calls {
+			gates = append(gates, k)
+		}
+		soft := an.BoolEdges(fn, func(v ssa.Value) bool { return an.Norm(v) == "p:pt.Soft" }, true)
+		bad := false
+		for _, e := range notSoft {
+			first := e.From.Succs[e.Succ].Instrs[0]
+			isGate := false
+			for _, g := range gates {
+				if g == first {
+					isGate = true
+				}
+			}
+			if isGate {
+				continue
+			}
+			hit, path := an.PathTo(fn, first, successReturn, an.NewGates().AddInstr(gates...).AddEdges(soft...))
+			if successReturn(first) {
+				hit = first
+			}
+			if hit != nil {
+				bad = true
+				c.Bad(rule, "a non-soft group calls its providers on every request", "a successful return is reachable on the !Soft path without callGroupProviders: members of constructors registered since an earlier request are missing", hit, an.BlockPath(c.P, path))
+			}
+		}
+		if !bad {
+			c.OK(rule, "a non-soft group calls its providers on every request", "callGroupProviders on every !Soft path", calls[0])
+		}
+	}
+}
